@@ -81,7 +81,7 @@ impl<'a> Display<'a> {
 
                 it.next().is_some()
             } else {
-                false
+                !rem.is_zero()
             }
         };
 
